@@ -5,8 +5,8 @@ import XrsVerif.Proofs.ILang
   that a `simp only` with them never unfolds more than one statement, and `loopOver` over a list of
   naturals cast to `Int`.
 -/
-namespace XrsVerif.IL
-open XrsVerif
+namespace XrsVerif.IL.Tr
+open XrsVerif XrsVerif.IL
 variable {F : Type} [Fl F]
 set_option linter.unusedSectionVars false
 
@@ -88,4 +88,4 @@ theorem loopOver_cons_run {α} (f : State F → α → State F) (x : α) (xs : L
   rw [loopOver_cons _ _ _ _ h]
   simp [hb]
 
-end XrsVerif.IL
+end XrsVerif.IL.Tr
